@@ -141,6 +141,11 @@ type Config struct {
 	Kind              Kind
 	ReadBuf, WriteBuf int // Raw: Read/WriteBufferSize (0 = default); HTTP: WriteBuf sizes the hijacked bufio.Writer
 
+	// ProtoHelper (ws.HTTPUpgrader only): build the Protocol selector with the
+	// library's ready-made helpers instead of a harness closure; the reference
+	// stays AcceptsProtocol (exact, case-sensitive membership in Protocols).
+	ProtoHelper ProtoHelperMode
+
 	HasProtocol bool     // a Protocol selector is set
 	Protocols   []string // ... and accepts exactly these names
 
@@ -234,6 +239,19 @@ func (c *Config) extMode() ExtMode {
 		return ExtNone
 	}
 	return c.ExtMode
+}
+
+// ProtoHelperMode says how HTTPUpgrader.Protocol is built.
+type ProtoHelperMode int
+
+const (
+	ProtoClosure   ProtoHelperMode = iota // harness closure over Protocols
+	ProtoFromSlice                        // ws.SelectFromSlice(Protocols) (a linear scan up to 16 names, a map above)
+	ProtoEqual                            // ws.SelectEqual(Protocols[0]); Protocols has exactly one name
+)
+
+func (m ProtoHelperMode) String() string {
+	return [...]string{"closure", "SelectFromSlice", "SelectEqual"}[m]
 }
 
 // AcceptsProtocol is the configured selector.
